@@ -1,14 +1,45 @@
-"""C11 registry entry (loaded by bin/registry.py)."""
+"""C11 registry entry (loaded by bin/registry.py).
+
+Four tape targets, all linked against the system OpenSSL 3.0 libcrypto (the independent implementation, reachable only
+through props/C11/ossl.h so that OpenSSL and MatrixSSL headers never meet) and with ld --wrap=psGetEntropy so that
+MatrixSSL's own randomness (RSA type-2 padding, PSS salts, ECDSA nonces/blinding, X25519 keygen) is a function of the tape.
+Keys: props/C11/keys/*.der, generated once by keys/regen.sh and compiled in through keys/keys_embedded.inc."""
 _COMMON = ['props/C11/ossl.cc']
+_T = dict(libs=['-lcrypto'], wraps=['psGetEntropy'])
 PROP = dict(
     level='exploration',
-    level_text='x',
-    level_note='x',
-    technique='x',
-    rule='x',
-    assumptions=[],
+    level_text='Generated differential and forgery-construction testing of every public-key primitive against OpenSSL 3.0 libcrypto: '
+               'each candidate RSA block / (r,s) pair / point / DH value is built by the harness, turned into a real signature with the pool '
+               'key\'s private exponent where applicable, and MatrixSSL\'s verdict must equal the verdict derived from RFC 8017 / SEC1 / RFC 8032 / '
+               'RFC 7748 mathematics computed with OpenSSL BN/EC primitives. Finds acceptance of non-canonical encodings, missing range or '
+               'curve-membership checks, wrong results and over-reads with high probability for the edit classes enumerated in the rule; proves '
+               'nothing about edit classes, keys or curves that were not generated.',
+    level_note='Trusted: OpenSSL 3.0 libcrypto (hashes, BN_mod_exp, EC_POINT arithmetic, Ed25519/X25519), the encoders written in props/C11 '
+               '(EMSA-PKCS1-v1_5, EMSA-PSS encode/verify, DER for ECDSA; each cross-checked against OpenSSL at start-up or per case; a '
+               'disagreement is counted as ORACLE-DISAGREE and discarded), ASan/UBSan for the over-read part. Key pool: 15 RSA keys '
+               '(1024/1536/2048/3072/4096 x e in {3,17,65537}), 25 EC keys (5 curves x {2 random, d=1, d=2, d=n-1}) plus tape-derived EC, '
+               'Ed25519 and X25519 keys, 4 DH groups. RSA-1536 is used for public-key operations only: pstm_exptmod refuses 768-bit '
+               'moduli by design, so CRT private-key operations are unsupported for that size. Laxness that does not change the integers '
+               'being verified (BER forms of the ECDSA wrapper, zero-padded point coordinates, leading zero octets on a PSS signature) is '
+               'reported in counters (lax*/note*), not as violations.',
+    technique='property-based differential testing + forgery construction with the private key (tape generators, shrinking, replay files), ASan exact-size buffers for truncation',
+    rule='case = (primitive, key from pool or tape, message/digest incl. boundary lengths, edit class, edit position/value, MatrixSSL entry point) drawn from the tape. '
+         'RSA: EM block edits {none, any byte x 5 values, short FF padding + garbage, pad byte != FF, block type 0/2, no separator, shifted block, s+n, wrong |S|, '
+         'absent/extra/garbage NULL params, wrong OID, digest length +-1, trailing bytes in/after DigestInfo, long-form lengths, outer length +-1, OCTET STRING tag, other hash, wrong digest}; '
+         'PSS {trailer, top bits, MGF hash, salt length, PS, separator, H, any byte, wrong digest, s+n, |S|}; type-2 unpadding with PS length 0..12 and structural errors; '
+         'ECDSA (r,s) in {valid,0,1,n-1,n,n+r,n+s,high-s,negated,>=p,bit flips,swapped,other key}, digest shorter/longer than the curve, u1G=+-u2Q constructions, '
+         'DER prefixes/patched lengths/lax forms/byte edits; points {off-curve variants, infinity encodings, coordinates >= p, wrong length, compressed/hybrid, wrong curve, every prefix}; '
+         'DH public values {0,1,2,p-2,p-1,p,p+1,2p-1,p+y,random>=p}; X25519 low-order / non-canonical / random u; Ed25519 {bit flips in R,S,msg,key, S+kL, S=L, R=0, S=0}. '
+         'Oracle = accept iff the block recovered with OpenSSL equals the one canonical encoding / is a valid PSS encoding / SEC1 4.1.4 holds on raw r,s / OpenSSL accepts (Ed25519), '
+         'results byte-equal to OpenSSL for signing (deterministic schemes), encryption round trips and shared secrets; no sanitizer report. '
+         'Non-trivial = every case (each carries an edit class or a boundary key/message); distinct = distinct (primitive, key size/curve, hash, edit class, position, entry point).',
+    assumptions=['OpenSSL 3.0 libcrypto is correct for RSA/EC/DH/Ed25519/X25519 arithmetic and hashing',
+                 'digests handed to ECDSA on P-521 are at most 65 bytes (no supported hash is longer); longer ones are clipped by the generator',
+                 'a tampered Ed25519 public key that only MatrixSSL refuses (small-order check) is not a violation'],
     targets=[
-        dict(name='c11_rsa', src=['props/C11/rsa.cc'] + _COMMON, libs=['-lcrypto'], wraps=['psGetEntropy'],
-             quick=dict(cases=8000, secs=60), thorough=dict(cases=400000, secs=420)),
+        dict(name='c11_rsa', src=['props/C11/rsa.cc'] + _COMMON, quick=dict(cases=32000, secs=40), thorough=dict(cases=2000000, secs=300), **_T),
+        dict(name='c11_ecdsa', src=['props/C11/ecdsa.cc'] + _COMMON, quick=dict(cases=16000, secs=40), thorough=dict(cases=400000, secs=260), **_T),
+        dict(name='c11_ka', src=['props/C11/ka.cc'] + _COMMON, quick=dict(cases=24000, secs=30), thorough=dict(cases=700000, secs=180), **_T),
+        dict(name='c11_ed25519', src=['props/C11/ed25519.cc'] + _COMMON, quick=dict(cases=16000, secs=15), thorough=dict(cases=1000000, secs=60), **_T),
     ],
 )
